@@ -434,6 +434,17 @@ PPL::Grid::relation_with(const Congruence& cg) const {
 
   PPL_DIRTY_TEMP_COEFFICIENT(div);
   div = cg.modulus();
+  // The scalar products computed below are the values of the congruence
+  // expression multiplied by the divisor of the generators (which is
+  // the same for all the points and parameters of a grid): scale the
+  // modulus accordingly.
+  for (Grid_Generator_System::const_iterator i = gen_sys.begin(),
+         i_end = gen_sys.end(); i != i_end; ++i) {
+    if (i->is_point()) {
+      div *= i->divisor();
+      break;
+    }
+  }
 
   PPL_DIRTY_TEMP_COEFFICIENT(sp);
 
@@ -491,7 +502,7 @@ PPL::Grid::relation_with(const Congruence& cg) const {
 
     case Grid_Generator::PARAMETER:
       if (cg.is_proper_congruence()) {
-        sp %= (div * g.divisor());
+        sp %= div;
       }
       if (sp == 0) {
         // Parameter g satisfies the cg so the relation depends
